@@ -137,7 +137,8 @@ def cases(tier, seed):
     for mod, name in ((c01, "C01"), (c10, "C10"), (c09, "C09"), (c08, "C08")):
         cs = [c for c in mod.cases("quick", seed) if not c.mut and not c.expect_reject and len(c.debug_modes) == 2]
         if name == "C08":
-            cs = [c for c in cs if c.tags.get("N", 0) <= 16]
+            # the all-lengths-at-once queries at N = 16 are about fold, not about markers, and take 15-30 s each
+            cs = [c for c in cs if c.tags.get("N", 0) <= 16 and not (c.tags.get("N", 0) >= 16 and "witness_any" in c.cid)]
         if name == "C09":
             cs = [c for c in cs if c.tags.get("counter_bits", 0) <= 4]
         if tier == "quick":
